@@ -54,6 +54,9 @@ impl Outcome {
     }
 }
 
+/// One query put to a solver object: (query kind, with certificate, argument labels).
+pub type Q<'a> = (&'a str, bool, Vec<usize>);
+
 /// Runs one query through the library API.  `sem` names the solver type.
 pub fn run_query(
     af: &AAFramework<usize>,
@@ -64,11 +67,21 @@ pub fn run_query(
     args: &[usize],
     factory: Box<dyn Fn() -> Box<dyn crustabri::sat::SatSolver>>,
 ) -> Outcome {
-    let refs: Vec<&usize> = args.iter().collect();
-    fn se<'a>(s: &'a mut dyn SingleExtensionComputer<usize>) -> Outcome {
+    run_queries(af, sem, enc, &[(q, cert, args.to_vec())], factory).pop().unwrap()
+}
+
+/// Puts a SEQUENCE of queries to ONE solver object (C06: order / repetition independence).
+pub fn run_queries(
+    af: &AAFramework<usize>,
+    sem: &str,
+    enc: &str,
+    queries: &[Q],
+    factory: Box<dyn Fn() -> Box<dyn crustabri::sat::SatSolver>>,
+) -> Vec<Outcome> {
+    fn se(s: &mut dyn SingleExtensionComputer<usize>) -> Outcome {
         Outcome::Ext(s.compute_one_extension().map(|e| ext_to_string(&e)))
     }
-    fn dc<'a>(s: &'a mut dyn CredulousAcceptanceComputer<usize>, cert: bool, a: &[&usize]) -> Outcome {
+    fn dc(s: &mut dyn CredulousAcceptanceComputer<usize>, cert: bool, a: &[&usize]) -> Outcome {
         if cert {
             let (b, c) = s.are_credulously_accepted_with_certificate(a);
             Outcome::Acc(b, c.map(|e| ext_to_string(&e)))
@@ -76,7 +89,7 @@ pub fn run_query(
             Outcome::Acc(s.are_credulously_accepted(a), None)
         }
     }
-    fn ds<'a>(s: &'a mut dyn SkepticalAcceptanceComputer<usize>, cert: bool, a: &[&usize]) -> Outcome {
+    fn ds(s: &mut dyn SkepticalAcceptanceComputer<usize>, cert: bool, a: &[&usize]) -> Outcome {
         if cert {
             let (b, c) = s.are_skeptically_accepted_with_certificate(a);
             Outcome::Acc(b, c.map(|e| ext_to_string(&e)))
@@ -84,82 +97,75 @@ pub fn run_query(
             Outcome::Acc(s.are_skeptically_accepted(a), None)
         }
     }
+    macro_rules! all3 {
+        ($s:expr) => {{
+            let mut s = $s;
+            queries
+                .iter()
+                .map(|(q, cert, args)| {
+                    let refs: Vec<&usize> = args.iter().collect();
+                    match *q {
+                        "SE" => se(&mut s),
+                        "DC" => dc(&mut s, *cert, &refs),
+                        _ => ds(&mut s, *cert, &refs),
+                    }
+                })
+                .collect()
+        }};
+    }
     match sem {
-        "GR" => {
-            let mut s = GroundedSemanticsSolver::new(af);
-            match q {
-                "SE" => se(&mut s),
-                "DC" => dc(&mut s, cert, &refs),
-                _ => ds(&mut s, cert, &refs),
-            }
-        }
+        "GR" => all3!(GroundedSemanticsSolver::new(af)),
         "CO" => {
             let mut s = CompleteSemanticsSolver::new_with_sat_solver_factory_and_constraints_encoder(
                 af,
                 factory,
                 make_encoder(enc),
             );
-            match q {
-                "DC" => dc(&mut s, cert, &refs),
-                _ => panic!("no such query on the complete solver"),
-            }
+            queries
+                .iter()
+                .map(|(q, cert, args)| {
+                    let refs: Vec<&usize> = args.iter().collect();
+                    match *q {
+                        "DC" => dc(&mut s, *cert, &refs),
+                        _ => panic!("no such query on the complete solver"),
+                    }
+                })
+                .collect()
         }
-        "ST" => {
-            let mut s = StableSemanticsSolver::new_with_sat_solver_factory(af, factory);
-            match q {
-                "SE" => se(&mut s),
-                "DC" => dc(&mut s, cert, &refs),
-                _ => ds(&mut s, cert, &refs),
-            }
-        }
+        "ST" => all3!(StableSemanticsSolver::new_with_sat_solver_factory(af, factory)),
         "PR" => {
             let mut s = PreferredSemanticsSolver::new_with_sat_solver_factory_and_constraints_encoder(
                 af,
                 factory,
                 make_encoder(enc),
             );
-            match q {
-                "SE" => se(&mut s),
-                "DS" => ds(&mut s, cert, &refs),
-                _ => panic!("no such query on the preferred solver"),
-            }
+            queries
+                .iter()
+                .map(|(q, cert, args)| {
+                    let refs: Vec<&usize> = args.iter().collect();
+                    match *q {
+                        "SE" => se(&mut s),
+                        "DS" => ds(&mut s, *cert, &refs),
+                        _ => panic!("no such query on the preferred solver"),
+                    }
+                })
+                .collect()
         }
-        "SST" => {
-            let mut s = SemiStableSemanticsSolver::new_with_sat_solver_factory_and_constraints_encoder(
-                af,
-                factory,
-                make_encoder(enc),
-            );
-            match q {
-                "SE" => se(&mut s),
-                "DC" => dc(&mut s, cert, &refs),
-                _ => ds(&mut s, cert, &refs),
-            }
-        }
-        "STG" => {
-            let mut s = StageSemanticsSolver::new_with_sat_solver_factory_and_constraints_encoder(
-                af,
-                factory,
-                make_encoder(enc),
-            );
-            match q {
-                "SE" => se(&mut s),
-                "DC" => dc(&mut s, cert, &refs),
-                _ => ds(&mut s, cert, &refs),
-            }
-        }
-        "ID" => {
-            let mut s = IdealSemanticsSolver::new_with_sat_solver_factory_and_constraints_encoder(
-                af,
-                factory,
-                make_encoder(enc),
-            );
-            match q {
-                "SE" => se(&mut s),
-                "DC" => dc(&mut s, cert, &refs),
-                _ => ds(&mut s, cert, &refs),
-            }
-        }
+        "SST" => all3!(SemiStableSemanticsSolver::new_with_sat_solver_factory_and_constraints_encoder(
+            af,
+            factory,
+            make_encoder(enc)
+        )),
+        "STG" => all3!(StageSemanticsSolver::new_with_sat_solver_factory_and_constraints_encoder(
+            af,
+            factory,
+            make_encoder(enc)
+        )),
+        "ID" => all3!(IdealSemanticsSolver::new_with_sat_solver_factory_and_constraints_encoder(
+            af,
+            factory,
+            make_encoder(enc)
+        )),
         _ => panic!("unknown semantics"),
     }
 }
